@@ -330,29 +330,28 @@ func (s *Store) LoadCheckpoint() error {
 			return fmt.Errorf("restore checkpoints from savepoint: %v", err)
 		}
 	} else {
-		// For a new job, check the file store for first (latest) snapshot file.
-		// Checkpoint IDs are encoded so that files will be in reverse chronological
-		// order.
-		var latestCheckpointFile string
+		// For a new job, check the file store for the snapshot file with the
+		// highest checkpoint ID. The encoded IDs in the file names don't sort in ID
+		// order (base64 isn't order preserving) and after a crash between writing a
+		// checkpoint and removing the previous one there are several files.
 		for filePath, err := range s.fileStore.List() {
 			if err != nil {
 				return err
 			}
-			if filepath.Ext(filePath) == ".snapshot" {
-				latestCheckpointFile = filePath
-				break
+			if filepath.Ext(filePath) != ".snapshot" {
+				continue
+			}
+			snap, err := s.SnapshotForURI(filePath)
+			if err != nil {
+				return err
+			}
+			if loadedCheckpoint == nil || snap.Id > loadedCheckpoint.Id {
+				loadedCheckpoint = snap
 			}
 		}
-
-		if latestCheckpointFile == "" {
+		if loadedCheckpoint == nil {
 			return nil // No checkpoint to load
 		}
-
-		snap, err := s.SnapshotForURI(latestCheckpointFile)
-		if err != nil {
-			return err
-		}
-		loadedCheckpoint = snap
 	}
 
 	// Set the initial checkpoint ID counter
